@@ -192,6 +192,11 @@ def find_loader(flow: Flow):
                         entry.add(ev[1])
     if not emitters:
         return set()
+    if len(entry) > 1:
+        # several functions receive the table text (a tokenizer next to the builder): the loader is the one in whose
+        # extent the gates are appended
+        reach = {fq for fq in entry if fq in emitters or ({g.fq for g in flow.prog.closure([flow.prog.func(fq)], may=True)} & emitters)}
+        entry = reach or entry
     return entry or emitters
 
 
@@ -336,6 +341,8 @@ def K2_reader(rep, flow: Flow):
             if len(cs) == 1:
                 lines.add(cs[0][1])
                 rep.ok("K2", 1, nontrivial=(f.fq, "circuit"))
+            elif any(_mentions_pos3(v) for v in fields.values()):
+                raise AnalysisError(f"{f.module.rel} {f.qualname}: the record keeps a TRANSFORMED copy of position 3 (the circuit text) of the line: whether the transformation preserves the circuit is outside K2")
             else:
                 rep.finding("K2", f"{f.fq}:circuit", f"{f.module.rel} {f.qualname}: no record field holds position 3 (the circuit text) of the line")
             if len(lines) > 1:
@@ -352,8 +359,18 @@ def K2_reader(rep, flow: Flow):
                 keys = [vkey(a) for a in ev[2]]
                 if any(isinstance(k, tuple) and k and k[0] == "field" and k[3] == ("const", "int", 3) for k in keys):
                     rep.ok("K2", 1, nontrivial=("loader-arg", ev[4]), sample=f"loader called at {ev[4]} with position 3 of the line")
+                elif any(_mentions_pos3(k) for k in keys):
+                    raise AnalysisError(f"{ev[4]}: the loader is fed a TRANSFORMED copy of position 3 of the table line ({[fmt(k)[:80] for k in keys]}): whether the transformation preserves the circuit is outside K2")
                 else:
                     rep.finding("K2", "loader-arg", f"{ev[4]}: the loader is fed {[fmt(k) for k in keys]}, not position 3 of the table line")
+
+
+def _mentions_pos3(k):
+    if isinstance(k, tuple) and k:
+        if k[0] == "field" and len(k) > 3 and k[3] == ("const", "int", 3):
+            return True
+        return any(_mentions_pos3(x) for x in k[1:])
+    return False
 
 
 def eval_key(k, env):
@@ -384,6 +401,11 @@ def W8_info(rep, flow: Flow, fq="mub_circuits.get_mub_info"):
         for (k, v, w) in o.meta.get("stores", []):
             if isinstance(k, Const):
                 stores[k.v] = v
+        wanted = ("max two-qubit count", "max two-qubit depth", "average two-qubit count", "num circuits")
+        allst = o.meta.get("stores", [])
+        dynamic = any(not isinstance(k, Const) for (k, _v, _w) in allst) or (o.elem is not None and not allst)
+        if dynamic and any(k not in stores for k in wanted):
+            raise AnalysisError(f"{f.module.rel} {f.qualname}: the keys of the returned dictionary are computed (comprehension / non-literal keys): which entry holds which header field cannot be decided")
         def hdr(v):
             k = vkey(v)
             if isinstance(k, tuple) and k[0] == "int" and k[1][0] == "field" and k[1][2] == ("const", "str", ":"):
